@@ -23,7 +23,8 @@
    Not proved here: fairness of the scheduler and of Mutex/Condvar (a runnable thread runs). *)
 From Coq Require Import NArith ZArith List Bool Arith.
 From Blue Require Import Gen.Const_Stall Lsm.Model Stall.Select Stall.Known Stall.Proto
-  Stall.ProofsBounds Stall.ProofsAdm Stall.ProofsNext Stall.ProofsTotal Stall.ProofsStall Stall.ProofsRelief Stall.ProofsProto Stall.ProofsMeasure Stall.ProofsProgress.
+  Stall.ProofsBounds Stall.ProofsAdm Stall.ProofsNext Stall.ProofsTotal Stall.ProofsStall Stall.ProofsRelief Stall.ProofsProto Stall.ProofsMeasure Stall.ProofsProgress
+  Lsm.History Stall.EndToEnd.
 Import ListNotations.
 Open Scope N_scope.
 
@@ -200,3 +201,19 @@ Example ex_stalled_is_relieved :
   | _ => false
   end = true.
 Proof. vm_compute. repeat split. Qed.
+
+(* End to end with C01 (added by the coordinator): whatever the selector picks on a well-formed tree
+   is a step the store's history theorem covers - a merging compaction changes no point read at
+   any timestamp, a last-level garbage collection changes no visible value - and the store
+   invariant (well-formed levels, Ordered) is kept, so the next selection starts from such a tree. *)
+Theorem C20_selected_merge_preserves_reads : forall s o og out c outs,
+  Inv s -> sel_wfb (ver s) = true -> next_compaction o (ver s) og = Ok out -> nc_choice out = Some c ->
+  outputs_okb (ver s) (cc c) outs = true ->
+  Inv (compact s (cc c) outs) /\ forall k t, load (compact s (cc c) outs) k t = load s k t.
+Proof. exact selected_merge_preserves_reads. Qed.
+
+Theorem C20_selected_gc_preserves_visible_values : forall s o og out c outs,
+  Inv s -> sel_wfb (ver s) = true -> next_compaction o (ver s) og = Ok out -> nc_choice out = Some c ->
+  S (cupper (cc c)) = length (ver s) -> gc_outputs_okb (ver s) (cc c) outs = true ->
+  Inv (compact s (cc c) outs) /\ forall k, get (compact s (cc c) outs) k = get s k.
+Proof. exact selected_gc_preserves_visible_values. Qed.
